@@ -15,6 +15,7 @@
 #![allow(unused_imports, dead_code, unused_variables, unused_mut)]
 #![feature(allocator_api)]
 use vstd::prelude::*;
+use vstd::std_specs::convert::*;
 use std::mem::size_of;
 
 verus! {
@@ -106,6 +107,7 @@ impl<W, R, T> XSeq<W, R, T> {
             Some(k) => x == Ok::<usize, ErrV>(k as usize),
             None => x is Err,
         },
+            self.elems().len() <= usize::MAX,   // (the length it normalises against is a usize)
     { unimplemented!() }
     /// XSequence::get at a valid index
     #[verifier::external_body]
@@ -181,6 +183,11 @@ impl<W, R, T> Heap<W, R, T> {
 /// the element list of a sequence a copying update produced
 pub open spec fn vals<W, R, T>(s: XSequence<W, R, T>) -> Seq<Val<W, R, T>> {
     match s { XSequence::Empty => Seq::empty(), XSequence::Array(v) => v@, XSequence::Other(_) => arbitrary() }
+}
+/// xexpr.rs: `impl From<EvaluatedValue> for TailedEvalResult` (the real impl is extracted below and checked against this)
+impl<W, R, T> FromSpecImpl<EvaluatedValue<W, R, T>> for TailedEvalResult<W, R, T> {
+    open spec fn obeys_from_spec() -> bool { true }
+    open spec fn from_spec(v: EvaluatedValue<W, R, T>) -> Self { TailedEvalResult::Value(v) }
 }
 /// the native result is a new sequence with the element list `l`
 pub open spec fn is_seq<W, R, T>(r: RuntimeResult<TailedEvalResult<W, R, T>>, l: Seq<Val<W, R, T>>) -> bool {
